@@ -93,6 +93,7 @@ def runC04 (c : CaseIn) : Array String := Id.run do
   let mut sawBadF := false
   let mut pending : List (Nat × String × String) := []   -- (line, fault, text) reported at the end (shape needs `asked`)
   let mut final : Option (Nat × Obs × Bool × Bool × String) := none
+  let mut finalSync : Option SyncObs := none
   for (ln, line) in c.lines do
     let (op, obs) := splitObs line
     let ws := words op
@@ -130,6 +131,9 @@ def runC04 (c : CaseIn) : Array String := Id.run do
       | some (o, rest) =>
         match rest with
         | ["chain", ch, "fchain", fch] => final := some (ln, o, ch == "ok", fch == "ok", obs)
+        | ["chain", ch, "fchain", fch, "sync", sy] =>
+          final := some (ln, o, ch == "ok", fch == "ok", obs)
+          finalSync := some (SyncObs.ofString sy)
         | _ => out := out.push s!"DIFF C04 case {c.num} line {ln}: unparsable final <{obs}>"
       | none => out := out.push s!"DIFF C04 case {c.num} line {ln}: unparsable final <{obs}>"
     | ["asked", i] =>
@@ -144,6 +148,12 @@ def runC04 (c : CaseIn) : Array String := Id.run do
   | some (ln, o, ch, fch, txt) =>
     for f in finalFaults g peers o ch fch do
       pending := pending ++ [(ln, f, txt)]
+    -- the sync-peer bookkeeping at quiescence: honest peers that are connected while our block tip is behind are "ahead"
+    if let some sy := finalSync then
+      let behind := o.btip != TipObs.tip g.honestHeight g.honestId
+      let ahead := if behind then (honestIdx peers).filter (o.conn.contains ·) else []
+      for f in syncFaults sy o.conn ahead do
+        pending := pending ++ [(ln, f, txt)]
   | none => out := out.push s!"DIFF C04 case {c.num} line 0: case has no final observation"
   for (ln, f, txt) in pending do
     if !seen.contains f then
@@ -358,6 +368,51 @@ def runC17 (c : CaseIn) : Array String := Id.run do
     | _ => pure ()
   return out
 
+/-! ### c04s: the block manager's sync-peer bookkeeping driven event by event (harness/syncdrv)
+
+  <event> => sync <none|k> cand [k…] tip <h>:<id> synced <0|1>
+  final   => sync … cand […] tip <h>:<id> synced <0|1> honest <h>:<id> ahead [k…]
+After EVERY handler step the sync peer must be one of the connected candidates or none; at the end (every
+request answered, the honest peer has announced its tip) the tip is the honest tip and a missing sync peer
+is only acceptable when no connected candidate is ahead. -/
+
+def parseSyncState (ws : List String) : Option (SyncObs × List Nat × String × List String) :=
+  match ws with
+  | "sync" :: sy :: "cand" :: rest =>
+    let (cand, rest) := bracket rest
+    match rest with
+    | "tip" :: tip :: "synced" :: _ :: rest => some (SyncObs.ofString sy, cand.map nat!, tip, rest)
+    | _ => none
+  | _ => none
+
+def runC04s (c : CaseIn) : Array String := Id.run do
+  let mut out : Array String := #[]
+  let mut seen : List String := []
+  for (ln, line) in c.lines do
+    let (op, obs) := splitObs line
+    let ws := words op
+    if ws == ["setup"] then
+      out := out.push s!"DIFF C04 case {c.num} line {ln}: the block manager could not be set up: {obs}"
+      continue
+    match parseSyncState (words obs) with
+    | none => out := out.push s!"DIFF C04 case {c.num} line {ln}: unparsable observation <{obs}>"
+    | some (sy, cand, tip, rest) =>
+      let mut faults : List String := []
+      if ws == ["final"] then
+        match rest with
+        | "honest" :: ht :: "ahead" :: rest' =>
+          let (ahead, _) := bracket rest'
+          faults := syncFaults sy cand (ahead.map nat!) ++ (if tip == ht then [] else ["no-convergence"])
+        | _ => out := out.push s!"DIFF C04 case {c.num} line {ln}: unparsable final <{obs}>"
+      else
+        -- mid-run only the membership clause is an invariant (a reselection may be one handler step away)
+        faults := (syncFaults sy cand []).filter (· == "sync-peer-not-connected")
+      for f in faults do
+        if !seen.contains f then
+          seen := f :: seen
+          out := out.push s!"ORACLE-FAIL C04 case {c.num} line {ln}: shape={f} {f} after `{op}` ({" ".intercalate c.header}): {obs}"
+  return out
+
 def runCase : CaseFn := fun c =>
   match c.header.headD "" with
   | "c04" => runC04 c
@@ -365,6 +420,7 @@ def runCase : CaseFn := fun c =>
   | "c13s" => runC13s c
   | "c15" => runC15 c
   | "c17" => runC17 c
+  | "c04s" => runC04s c
   | h => #[s!"DIFF C04 case {c.num} line 0: unknown case kind <{h}>"]
 
 end Driver.Drv.Net
